@@ -146,6 +146,68 @@ def h_pflow_run(max_iter, m):
     return h
 
 
+def h_exit_code_kept():
+    """TDS.run epilogue (cut from the current source) after an earlier failure was recorded in the exit code
+    (e.g. a failed initialisation test): reaching tf must not erase it"""
+    def h(I):
+        from checks import c06
+        body, test, epi, cuts = c06.cut_loop()
+        tds, system, cfg, S, stored, fired, conv = c06.make_tds(I, 3, 3)
+        earlier = bool(I.boolean('an_earlier_step_recorded_a_failure'))
+        system.exit_code = 1 if earlier else 0
+        go = test(tds, system, system.dae, cfg)
+        I.assume(NOT(go))
+        ok = epi(tds, system, system.dae, cfg)
+        return [('a failure recorded earlier in the run keeps the exit code non-zero', (not earlier) or system.exit_code > 0),
+                ('no failure => exit code 0 after a completed run', earlier or system.exit_code == 0)]
+    return h
+
+
+def h_pflow_twice(max_iter):
+    """two runs on one PFlow object with the REAL init: the outcome of the second run is its own"""
+    def h(I):
+        import andes.routines.pflow as PF
+        npx = NPNan(I)
+        nr_solve = pysym.rebind(PF.PFlow.nr_solve, np=npx, logger=_Log())
+        run = pysym.rebind(PF.PFlow.run, np=npx, logger=_Log(), elapsed=lambda *a: (0.0, '0 s'))
+        init_f = PF.PFlow.init
+        init_f = getattr(init_f, '__wrapped__', None) or init_f
+        tol = I.real('tol')
+        I.assume(LT(0, tol))
+        m = 2
+        sysm = NS(dae=NS(m=m, n=0, x=np.zeros(0), y=np.zeros(m), xy=np.zeros(m), xy_name=['v'] * m), exit_code=0, files=NS(case='c'),
+                  connectivity=lambda: None, TDS=NS(init=lambda: None), PFlow=NS(report=lambda: None), conn=NS(act=lambda: None),
+                  find_models=lambda flag: {}, set_var_arrays=lambda *a, **k: None, init=lambda *a, **k: None, config=NS(numba=0))
+        pf = NS(system=sysm, config=NS(tol=tol, max_iter=max_iter, method='NR', check_conn=0, init_tds=0, report=0), niter=0, mis=[1],
+                converged=False, exec_time=0.0, x_sol=None, y_sol=None, summary=lambda: None, models={})
+        init_real = pysym.rebind(PF.PFlow.init, logger=_Log(), elapsed=lambda *a: (0.0, '0 s'), matrix=lambda *a, **k: None)
+        pf.init = lambda: init_real(pf)
+        seq = []
+        rn = [0]
+
+        def nr_step():
+            k = len(seq)
+            v = I.real(f'run{rn[0]}_mis{k}')
+            I.assume(LE(0, v))
+            seq.append(v)
+            if len(seq) > max_iter + 3:
+                raise pysym.Abort('nr_solve does not stop')
+            return v
+        pf.nr_step = nr_step
+        pf.nr_solve = lambda: nr_solve(pf)
+        pf.newton_krylov = lambda: None
+        out = []
+        for r in range(2):
+            rn[0] = r
+            del seq[:]
+            ret = run(pf)
+            good = LT(seq[-1], tol)
+            out.append((f'run {r + 1}: success is reported <=> its own last mismatch is below the tolerance', IFF(bool(ret), good)))
+            out.append((f'run {r + 1}: exit code is 0 exactly on success', (sysm.exit_code == 0) is bool(ret)))
+        return out
+    return h
+
+
 def h_test_init(n):
     def h(I):
         import andes.routines.tds as TD
@@ -245,6 +307,10 @@ def job(spec):
     if kind == 'pf':
         return H.run(f'PFlow.run[max_iter={arg[0]},m={arg[1]}]', h_pflow_run(*arg), max_paths=4000,
                      region=lambda v, c: ('first Newton iteration fails: ' if v.get('nan_seen_1') or True else '') + c)
+    if kind == 'keep':
+        return H.run('TDS.run epilogue with an earlier failure', h_exit_code_kept(), region=lambda v, c: c)
+    if kind == 'pf2':
+        return H.run(f'PFlow.run twice[max_iter={arg}]', h_pflow_twice(arg), max_paths=6000, region=lambda v, c: c.split(': ')[-1])
     if kind == 'ti':
         return H.run(f'TDS.test_init[n={arg}]', h_test_init(arg), region=lambda v, c: c)
     if kind == 'refuse':
@@ -275,7 +341,7 @@ def main():
     ck.assume('NaN is modelled by the free boolean of the isnan test only')
     ck.out('NaN propagation inside numpy/C', 'unparsable input files (file I/O)', 'step-level facts: see C04/C06; solver singular path: C16')
     jobs = [('nr', k) for k in ((0, 1, 2, 3) if thorough else (0, 1, 2))] + [('pf', (k, 2)) for k in (0, 1, 2)] + [('pf', (1, 0))]
-    jobs += [('ti', n) for n in (1, 2, 3)] + [('refuse', 'TDS'), ('refuse', 'EIG'), ('setup', 0)]
+    jobs += [('keep', 0), ('pf2', 1)] + [('ti', n) for n in (1, 2, 3)] + [('refuse', 'TDS'), ('refuse', 'EIG'), ('setup', 0)]
     jobs += [('main', (1, False)), ('main', (2, True)), ('main', (2, False))]
     ck.merge(core.pmap(job, jobs))
     ck.sample({'PFlow.run': 'mismatch sequence mis0, mis1, ... >= 0, tol > 0, nan_seen_k booleans'})
